@@ -406,6 +406,23 @@ Proof.
 Qed.
 Print Assumptions gen_dca_prox_dca_are_models.
 
+(* generated accelerated_proximal_gradient: the scalar recursion t, alpha is a parameter (alpha k);
+   y = x.copy() is a separate object; niter callbacks, log and final x are those of the model *)
+Theorem gen_accelerated_proximal_gradient_is_model :
+  forall (proxf gradg : list R -> list R) (gamma : R) (alpha : nat -> R) (junk : string -> list R)
+         (niter : nat) (x : list R),
+  let I := fun k => mk_I [("gamma", gamma); ("alpha", alpha k)]
+                         [("f.proximal(gamma)", proxf); ("g.gradient", gradg)] [] [] junk in
+  exists s,
+    obind (option_map canon (exec (I 0%nat) accelerated_proximal_gradient_pre
+                               (mk_hst [("x", 0%nat); ("caller.x", 0%nat)] [x] [])))
+          (iterk_opt niter 0 (fun k => body_step (I k) accelerated_proximal_gradient_body)) = Some s
+    /\ deref s "caller.x" = Some (fst (iterk niter 0 (apg_step proxf gradg gamma alpha) (x, x)))
+    /\ h_log s = tracek (@fst (list R) (list R)) niter 0 (apg_step proxf gradg gamma alpha) (x, x)
+    /\ length (h_log s) = niter.
+Proof. exact gen_apg_run. Qed.
+Print Assumptions gen_accelerated_proximal_gradient_is_model.
+
 (* generated steepest_descent (constant step; the `return` inside the loop): the caller's x
    and the callback log are those of the model with its "returned" flag *)
 Theorem gen_steepest_descent_is_model :
